@@ -72,7 +72,7 @@ def run(prop: str, tier: str) -> int:
         from netqasm.sdk.qubit import Qubit
         dtol = inspect.signature(get_angle_spec_from_float).parameters["tol"].default
         sdk_angles = [a for a in angles(tier, random.Random(C.seed() * 17 + 3))][: (300 if tier == "quick" else 10000)]
-        sdk_angles += [2 * math.pi - e for e in (1e-3, 1e-4, 5e-5, 2e-5, 1e-5, 1e-6, 1e-7)] + [-e for e in (1e-4, 2e-5, 1e-6)] + [4 * math.pi - 1e-6, math.pi - 1e-6, math.pi + 1e-6]
+        sdk_angles += [2 * math.pi - e for e in (1e-3, 1e-4, 5e-5, 2e-5, 1e-5, 1e-6, 1e-7)] + [-e for e in (1e-4, 2e-5, 1e-6)] + [4 * math.pi - 1e-6, math.pi - 1e-6, math.pi + 1e-6, 0.0, 0.0, 0.0, -0.0, -0.0, -0.0, 2 * math.pi, 2 * math.pi, 2 * math.pi]
         nsdk = 0
         from netqasm.logging.glob import set_log_level
         devnull = open(os.devnull, "w")
@@ -94,7 +94,8 @@ def run(prop: str, tier: str) -> int:
                 try:
                     conn = rig.VConnection("alice", max_qubits=2, **({"hardware_config": NVHardwareConfig(2)} if nvcfg else {}))
                     q = Qubit(conn)
-                    getattr(q, axis)(angle=a)
+                    # (n, d) are documented to be ignored whenever `angle` is given: every third call passes both
+                    getattr(q, axis)(angle=a, **({"n": 1 + j % 3, "d": 1 + j % 2} if j % 3 == 1 else {}))
                     conn.flush()
                 finally:
                     if debug:
@@ -120,7 +121,7 @@ def run(prop: str, tier: str) -> int:
         for i, v in sorted(bad.items()):
             r = by[i]
             a, tol = float(r["angle"]), float(r["tolerance"])
-            approx = sum(Fraction(n, 1 << d) for n, d in r["steps"])
+            approx = sum(Fraction(n) * Fraction(2) ** (-d) for n, d in r["steps"])      # (a reported step may have any exponent, also a negative one)
             err = abs(float(((approx - Fraction(a) / PI + 1) % 2 - 1) * PI))
             V.add(v[1], {"sign": "negative" if a < 0 else "non-negative", "tol": r["tolerance"] if v[1] != "outside-tolerance" else
                          ("<=1e-6" if tol <= 1e-6 else ">1e-6"), "error_over_tol": "<=pi" if err <= math.pi * tol * 1.0001 else ">pi"},
